@@ -39,9 +39,9 @@ func c16rWaitLeader(s *Server, name string) *partition {
 }
 
 func TestVerifC16Restore(t *testing.T) {
-	res := vNewResult("C16", "[across a snapshot] running single-node server: streams with and without concurrency control holding 0..3 messages, FSM snapshot taken (Snapshot+Persist), installed on the running server (Restore+finishedRecovery), "+
-		"then conditional publishes with every expected offset in {-1, 0..len+1} (one at a time, ack policy LEADER and ALL); oracle from C16: on a stream CREATED with concurrency control stored iff expected = next offset or waived, at exactly that offset, otherwise refused with the incorrect-offset error and the log unchanged; "+
-		"non-trivial = concurrency-control stream and an expected offset that is not the next one; distinct by (occ, length, expected, policy, repeated install)")
+	res := vNewResult("C16", "[across a snapshot and across pause/resume] running single-node server: streams with and without concurrency control holding 0..3 messages; FSM snapshot taken (Snapshot+Persist) and installed on the running server (Restore+finishedRecovery), twice; then every stream paused and resumed by a publish; after each event "+
+		"conditional publishes with expected offset waived / 0 / stale / next / future / next again (one at a time, ack policy LEADER and ALL); oracle from C16: on a stream CREATED with concurrency control stored iff expected = next offset or waived, at exactly that offset, otherwise refused with the incorrect-offset error and the log unchanged; "+
+		"non-trivial = concurrency-control stream and an expected offset that is not the next one; distinct by (occ, length, expected, policy, event)")
 	defer res.Write(t)
 	if vReplayCase(t) != nil {
 		// the whole sweep is a few seconds: a replay runs all of it
@@ -100,25 +100,71 @@ func TestVerifC16Restore(t *testing.T) {
 		}
 		return ""
 	}
-	for round := 0; round < 2; round++ { // a snapshot of a server that was itself restored from one
-		if e := install(); e != "" {
-			res.Fail(vFailure{Kind: "spec", Case: []string{fmt.Sprintf("c16r install %d", round)}, Detail: "installing the server's own snapshot failed: " + e, Tag: "snapshot-install-failed"})
+	pause := func() string {
+		for _, st := range streams {
+			ctx, cancel := context.WithTimeout(context.Background(), 10*time.Second)
+			_, err := s.api.PauseStream(ctx, &client.PauseStreamRequest{Name: st.name})
+			cancel()
+			if err != nil {
+				return "pause " + st.name + ": " + err.Error()
+			}
+		}
+		return ""
+	}
+	// rounds 0, 1: a snapshot is installed (the second one is the snapshot of a server that was itself restored
+	// from one); round 2: every stream is paused and then resumed by the first publish that reaches it (the
+	// partition object is rebuilt from the stream's configuration on resume)
+	for round := 0; round < 3; round++ {
+		if round < 2 {
+			if e := install(); e != "" {
+				res.Fail(vFailure{Kind: "spec", Case: []string{fmt.Sprintf("c16r install %d", round)}, Detail: "installing the server's own snapshot failed: " + e, Tag: "snapshot-install-failed"})
+				return
+			}
+		} else if e := pause(); e != "" {
+			res.Fail(vFailure{Kind: "spec", Case: []string{"c16r pause"}, Detail: "pausing a stream failed: " + e, Tag: "pause-failed"})
 			return
 		}
 		for _, st := range streams {
+			if round == 2 {
+				// the resuming publish: unconditional, so that the sweep below starts on a running partition
+				ctx, cancel := context.WithTimeout(context.Background(), 10*time.Second)
+				_, err := s.api.Publish(ctx, &client.PublishRequest{Stream: st.name, Value: []byte("resume"), AckPolicy: client.AckPolicy_LEADER, ExpectedOffset: -1})
+				cancel()
+				if err != nil {
+					res.Fail(vFailure{Kind: "spec", Case: []string{"c16r resume " + st.name}, Detail: "the publish that resumes the paused stream failed: " + err.Error(), Tag: "resume-failed"})
+					continue
+				}
+				st.n++
+			}
 			p := c16rWaitLeader(s, st.name)
 			if p == nil {
-				res.Fail(vFailure{Kind: "spec", Case: []string{"c16r " + st.name}, Detail: "the partition is not led again after the snapshot was installed", Tag: "partition-not-led-after-install"})
+				res.Fail(vFailure{Kind: "spec", Case: []string{"c16r " + st.name}, Detail: "the partition is not led again after the snapshot was installed / the stream was resumed", Tag: "partition-not-led-after-install"})
 				continue
 			}
 			for _, pol := range []client.AckPolicy{client.AckPolicy_LEADER, client.AckPolicy_ALL} {
-				for exp := int64(-1); exp <= st.n+1; exp++ {
+				for _, rel := range []string{"waived", "zero", "stale", "next", "future", "next"} {
+					var exp int64
+					switch rel {
+					case "waived":
+						exp = -1
+					case "zero":
+						exp = 0
+					case "stale":
+						exp = st.n - 1
+						if exp < 0 {
+							continue
+						}
+					case "next":
+						exp = st.n
+					case "future":
+						exp = st.n + 1
+					}
 					next := p.log.NewestOffset() + 1
 					if next != st.n {
 						res.Fail(vFailure{Kind: "spec", Case: []string{"c16r " + st.name}, Detail: fmt.Sprintf("log holds %d messages, %d were stored", next, st.n), Tag: "log-length-after-install"})
 						st.n = next
 					}
-					line := fmt.Sprintf("c16r occ=%v len=%d expected=%d policy=%v install=%d", st.occ, st.n, exp, pol, round)
+					line := fmt.Sprintf("c16r occ=%v len=%d expected=%d policy=%v event=%s", st.occ, st.n, exp, pol, []string{"install", "install-again", "pause-resume"}[round])
 					ctx, cancel := context.WithTimeout(context.Background(), 5*time.Second)
 					resp, err := s.api.Publish(ctx, &client.PublishRequest{Stream: st.name, Value: []byte(line), AckPolicy: pol, ExpectedOffset: exp})
 					cancel()
@@ -145,9 +191,6 @@ func TestVerifC16Restore(t *testing.T) {
 						res.Fail(vFailure{Kind: "spec", Case: []string{line}, Detail: fmt.Sprintf("acknowledged at offset %d, next offset was %d", resp.Ack.Offset, st.n), Tag: "conditional-publish-after-snapshot-offset"})
 					}
 					st.n = after
-					if st.n > 8 { // keep the sweep small: expected offsets are drawn relative to the length
-						break
-					}
 				}
 			}
 		}
